@@ -303,3 +303,20 @@ pub(crate) fn io_error_kind(_this: &io::Error) -> io::ErrorKind {
         }
     }
 }
+
+/// `vec![x; n]` (alloc::vec::from_elem) -> at most 8 elements. Used by ONE unit
+/// harness of `Chunk::verify_trailing_zeros`, whose scan buffer is
+/// `vec![0u8; 1024]`: the block-wise logic (several `read_at` calls, a verdict
+/// per block) is then exercised with 8-byte blocks on a 20-byte tail instead of
+/// needing files above 1 KiB. The function's behaviour is parametric in the
+/// block size; the claim is for block size 8.
+pub(crate) fn vec_from_elem_block8<T: Clone>(elem: T, n: usize) -> Vec<T> {
+    let m = if n > 8 { 8 } else { n };
+    let mut v = Vec::new();
+    let mut i = 0;
+    while i < m {
+        v.push(elem.clone());
+        i += 1;
+    }
+    v
+}
